@@ -382,6 +382,12 @@ func Ite(c, a, b *Term) *Term {
 			return And(c, a)
 		}
 	}
+	// narrowing: ite over zero-extended operands stays narrow
+	if a.W > 8 {
+		if na, nb, ok := narrowPair(a, b); ok {
+			return ZExt(Ite(c, na, nb), a.W)
+		}
+	}
 	// ite(c, ite(c, x, y), z) = ite(c, x, z)
 	if a.op == OpIte && a.args[0] == c {
 		a = a.args[1]
@@ -438,6 +444,11 @@ func Eq(a, b *Term) *Term {
 	}
 	if (a.op == OpZExt && b.op == OpZExt || a.op == OpSExt && b.op == OpSExt) && a.args[0].W == b.args[0].W {
 		return Eq(a.args[0], b.args[0])
+	}
+	if a.W > 8 && a.op == OpZExt && b.op == OpZExt {
+		if na, nb, ok := narrowPair(a, b); ok {
+			return Eq(na, nb)
+		}
 	}
 	if a.id > b.id {
 		a, b = b, a
@@ -557,6 +568,12 @@ func BinBV(op Op, a, b *Term) *Term {
 		if a.IsConst() {
 			a, b = b, a
 		}
+		if w > 8 {
+			if na, nb, ok := narrowPair(a, b); ok && na.W+1 < w {
+				nw := na.W + 1
+				return ZExt(BinBV(OpAdd, ZExt(na, nw), ZExt(nb, nw)), w)
+			}
+		}
 	case OpSub:
 		if b.IsConst() && b.val == 0 {
 			return a
@@ -657,8 +674,10 @@ func Cmp(op Op, a, b *Term) *Term {
 	} else if op == OpSLe {
 		uop = OpULe
 	}
-	if a.op == OpZExt && b.op == OpZExt && a.args[0].W == b.args[0].W {
-		return Cmp(uop, a.args[0], b.args[0])
+	if a.op == OpZExt && b.op == OpZExt {
+		if na, nb, ok := narrowPair(a, b); ok {
+			return Cmp(uop, na, nb)
+		}
 	}
 	if a.op == OpZExt && b.IsConst() && a.args[0].W < w {
 		iw := a.args[0].W
@@ -924,3 +943,45 @@ func mask64(w int) uint64 {
 }
 
 var _ = bits.Len
+
+// narrowPair: if both terms are zero-extensions (or constants that fit), return them at the common narrow width.
+func narrowPair(a, b *Term) (*Term, *Term, bool) {
+	inner := func(t *Term) (*Term, bool) {
+		if t.op == OpZExt {
+			return t.args[0], true
+		}
+		return nil, false
+	}
+	ia, oka := inner(a)
+	ib, okb := inner(b)
+	switch {
+	case oka && okb:
+		w := ia.W
+		if ib.W > w {
+			w = ib.W
+		}
+		if w >= a.W {
+			return nil, nil, false
+		}
+		return ZExt(ia, w), ZExt(ib, w), true
+	case oka && b.IsConst():
+		w := ia.W
+		for b.val > mask(w) {
+			w++
+		}
+		if w >= a.W {
+			return nil, nil, false
+		}
+		return ZExt(ia, w), BV(w, b.val), true
+	case okb && a.IsConst():
+		w := ib.W
+		for a.val > mask(w) {
+			w++
+		}
+		if w >= a.W {
+			return nil, nil, false
+		}
+		return BV(w, a.val), ZExt(ib, w), true
+	}
+	return nil, nil, false
+}
